@@ -84,8 +84,187 @@ def table_text(name, tables, keyf):
     return 'def %s : Array (Array (Array Tok)) := #[\n%s\n]\n' % (name, ',\n'.join(parts))
 
 
+PURE_CALLS = {'valid', 'size', 'back', 'file_length', 'max', 'strlen', 'get', 'disc_format', 'reverse_bit_order', 'has_value',
+              'is_sorted', 'begin', 'end', 'is_drive_connected', 'drive', 'empty', 'sizeof', 'start_sector', 'assert',
+              'numeric_limits', 'static_cast', 'unsigned', 'const', 'char', 'int', 'defined'}
+
+
+def strip_c_comments(src):
+    out = []
+    i = 0
+    n = len(src)
+    while i < n:
+        if src.startswith('//', i):
+            j = src.find('\n', i)
+            i = n if j < 0 else j
+        elif src.startswith('/*', i):
+            j = src.find('*/', i + 2)
+            seg = src[i:(n if j < 0 else j + 2)]
+            out.append('\n' * seg.count('\n'))
+            i = n if j < 0 else j + 2
+        elif src[i] == '"':
+            j = i + 1
+            while j < n and src[j] != '"':
+                j += 2 if src[j] == '\\' else 1
+            out.append('"' + 's' * max(0, j - i - 1) + '"')
+            i = j + 1
+        elif src[i] == "'":
+            j = i + 1
+            while j < n and src[j] != "'":
+                j += 2 if src[j] == '\\' else 1
+            out.append("'c'")
+            i = j + 1
+        else:
+            out.append(src[i])
+            i += 1
+    return ''.join(out)
+
+
+def scan_asserts(repo):
+    sites = []
+    files = []
+    for d in ('dfs', 'basic'):
+        for f in sorted(os.listdir(os.path.join(repo, d))):
+            if f.endswith(('.cc', '.c', '.h')):
+                files.append(os.path.join(d, f))
+    for rel in files:
+        raw = open(os.path.join(repo, rel), encoding='latin-1').read()
+        src = strip_c_comments(raw)
+        for m in re.finditer(r'(?<![A-Za-z0-9_])assert\s*\(', src):
+            i = m.end()
+            depth = 1
+            while i < len(src) and depth:
+                depth += {'(': 1, ')': -1}.get(src[i], 0)
+                i += 1
+            arg = src[m.end():i - 1]
+            line = src.count('\n', 0, m.start()) + 1
+            flat = ' '.join(arg.split())
+            t = re.sub(r'==|!=|<=|>=|->', ' ', flat)
+            reasons = []
+            if '=' in t:
+                reasons.append('assignment')
+            if '++' in flat or '--' in flat:
+                reasons.append('increment/decrement')
+            for c in re.findall(r'([A-Za-z_][A-Za-z0-9_]*)\s*\(', flat):
+                if c not in PURE_CALLS:
+                    reasons.append('call to %s()' % c)
+            if 'new ' in flat or 'delete ' in flat:
+                reasons.append('new/delete')
+            sites.append({'file': rel, 'line': line, 'text': flat[:160], 'pure': not reasons, 'why': reasons})
+    return sites
+
+
+def stmt_after(src, i):
+    """the statement or block starting at src[i:] (after an if-condition): returns text"""
+    n = len(src)
+    while i < n and src[i].isspace():
+        i += 1
+    if i < n and src[i] == '{':
+        depth = 0
+        j = i
+        while j < n:
+            depth += {'{': 1, '}': -1}.get(src[j], 0)
+            j += 1
+            if depth == 0:
+                break
+        return src[i:j]
+    j = src.find(';', i)
+    return src[i:(n if j < 0 else j + 1)]
+
+
+def scan_verbose(repo):
+    sites = []
+    for rel in sorted(os.path.join('dfs', f) for f in os.listdir(os.path.join(repo, 'dfs')) if f.endswith(('.cc', '.h'))):
+        src = strip_c_comments(open(os.path.join(repo, rel), encoding='latin-1').read())
+        for m in re.finditer(r'(?<![A-Za-z0-9_])(DFS::)?verbose(?![A-Za-z0-9_])', src):
+            line = src.count('\n', 0, m.start()) + 1
+            before = src[max(0, m.start() - 40):m.start()]
+            after = src[m.end():m.end() + 40]
+            ctxt = ' '.join((before[-30:] + m.group(0) + after[:12]).split())
+            kind = None
+            problems = []
+            if re.search(r'if\s*\(\s*!?\s*$', before) and re.match(r'\s*\)', after):
+                negated = bool(re.search(r'!\s*$', before))
+                # position just after the closing parenthesis
+                k = m.end() + after.index(')') + 1
+                if negated:
+                    body = stmt_after(src, k)
+                    kind = 'guard-return'
+                    if not re.match(r'\s*\{?\s*return\s*;', body):
+                        problems.append('negated verbose test that is not a plain early return')
+                    # the rest of the function is verbose-only: find the end of the enclosing function body
+                    depth = 0
+                    j = k
+                    while j < len(src):
+                        if src[j] == '{':
+                            depth += 1
+                        elif src[j] == '}':
+                            if depth == 0:
+                                break
+                            depth -= 1
+                        j += 1
+                    body = src[k:j]
+                    if re.search(r'(?<![A-Za-z0-9_])(std::)?cout(?![A-Za-z0-9_])', body):
+                        problems.append('writes to cout')
+                else:
+                    body = stmt_after(src, k)
+                    kind = 'if-verbose'
+                    if re.search(r'(?<![A-Za-z0-9_])(std::)?cout(?![A-Za-z0-9_])', body):
+                        problems.append('writes to cout')
+                    if re.search(r'(?<![A-Za-z0-9_])(return|break|continue|throw|goto|exit|abort)(?![A-Za-z0-9_])', body):
+                        problems.append('changes control flow')
+                    t = re.sub(r'==|!=|<=|>=|<<=|>>=', ' ', body)
+                    if re.search(r'[^<>=!]=[^=]', t) or '++' in body or '--' in body:
+                        problems.append('assigns or increments')
+                    # an else branch makes the non-verbose path depend on the flag too
+                    rest = src[k + len(body):k + len(body) + 20]
+                    if re.match(r'\s*else(?![A-Za-z0-9_])', rest):
+                        problems.append('has an else branch')
+            elif re.search(r'(bool|extern\s+bool)\s+$', before) or re.search(r'bool\s+(DFS::)?$', before):
+                kind = 'declaration'
+            elif re.match(r'\s*=\s*true\s*;', after) and rel.endswith('main.cc'):
+                kind = 'set-by-option'
+            elif re.match(r'\s*(=\s*false\s*;)', after):
+                kind = 'definition'
+            elif re.search(r'[(,]\s*$', before) and re.match(r'\s*[,)]', after):
+                kind = 'argument'
+            elif re.search(r'"\s*$', before) or re.search(r'\{\s*"$', before):
+                kind = 'string'
+            else:
+                kind = 'other-use'
+                problems.append('verbose used outside a plain if(verbose) test')
+            sites.append({'file': rel, 'line': line, 'kind': kind, 'ok': not problems, 'why': problems, 'text': ctxt[:100]})
+    return sites
+
+
 def generate(repo, out, report, write_if_changed):
     problems = report.setdefault('table_problems', [])
+    try:
+        sites = scan_asserts(repo)
+        def esc(t):
+            return t.replace('\\', '\\\\').replace('"', '\\"')
+        body = ',\n'.join('  { file := "%s", line := %d, pure := %s, text := "%s" }' % (x['file'], x['line'], 'true' if x['pure'] else 'false', esc(x['text'])) for x in sites)
+        hdr = ('/- GENERATED by tools/translate/tables.py: every assert(...) in /repo/dfs and /repo/basic with the translator\'s\n'
+               '   purity verdict for its argument (impure = contains an assignment, an increment or decrement, new or delete, or a call to a function\n'
+               '   that is not on the list of known side-effect-free accessors). -/\n'
+               'namespace Beeb.Gen\n\nstructure AssertSite where\n  file : String\n  line : Nat\n  pure : Bool\n  text : String\nderiving Repr\n\n')
+        write_if_changed(os.path.join(out, 'Asserts.lean'), hdr + 'def assertSites : List AssertSite := [\n' + body + '\n]\n\nend Beeb.Gen\n')
+        report['tables']['asserts'] = {'sites': len(sites), 'impure': [x for x in sites if not x['pure']]}
+    except Exception as e:
+        problems.append({'property': 'C19', 'what': 'assert scan failed: %s' % e})
+    try:
+        vs = scan_verbose(repo)
+        def esc2(t):
+            return t.replace('\\', '\\\\').replace('"', '\\"')
+        body = ',\n'.join('  { file := "%s", line := %d, kind := "%s", ok := %s, text := "%s" }' % (x['file'], x['line'], x['kind'], 'true' if x['ok'] else 'false', esc2(x['text'])) for x in vs)
+        hdr = ('/- GENERATED by tools/translate/tables.py: every use of the `verbose` flag in /repo/dfs.  A site is ok when it is a\n'
+               '   declaration, an argument, the option handler, or a plain `if (verbose)` whose body only writes to cerr (no cout,\n'
+               '   no return/break/continue/throw, no assignment, no else branch), or an `if (!verbose) return;` guard of a cerr-only helper. -/\n'
+               'namespace Beeb.Gen\n\nstructure VerboseSite where\n  file : String\n  line : Nat\n  kind : String\n  ok : Bool\n  text : String\nderiving Repr\n\n')
+        write_if_changed(os.path.join(out, 'VerboseSites.lean'), hdr + 'def verboseSites : List VerboseSite := [\n' + body + '\n]\n\nend Beeb.Gen\n')
+        report['tables']['verbose'] = {'sites': len(vs), 'bad': [x for x in vs if not x['ok']]}
+    except Exception as e:
+        problems.append({'property': 'C18', 'what': 'verbose-site scan failed: %s' % e})
     try:
         tables, names = extract_tokens(repo)
         body = table_text('tokTable', tables, lambda d, mp: (d, mp))
